@@ -17,6 +17,40 @@ from .cbref import interp as cbi  # noqa: E402
 
 COUNTERS = {"convert_calls": 0, "convert_ok": 0, "convert_refused": 0, "convert_internal": 0}
 
+# ---- probe (evidence only, never a verdict): which rules of the tool's PEG grammar the workload reached.
+# The module-level grammar object of the compiler is replaced by a proxy that delegates to the real grammar and
+# walks the returned parse tree.
+GRAMMAR_RULES_SEEN = set()
+
+
+class _GrammarProbe(object):
+    def __init__(self, real):
+        self._real = real
+
+    def parse(self, text, *a, **kw):
+        tree = self._real.parse(text, *a, **kw)
+        try:
+            stack = [tree]
+            seen = GRAMMAR_RULES_SEEN
+            n = 0
+            while stack and n < 20000:
+                node = stack.pop()
+                n += 1
+                name = getattr(node, "expr_name", "")
+                if name:
+                    seen.add(name)
+                stack.extend(node.children)
+        except Exception:  # noqa: BLE001 - a probe must never change an outcome
+            pass
+        return tree
+
+    def __getattr__(self, name):
+        return getattr(self._real, name)
+
+
+if os.environ.get("VERIF_PROBE", "1") == "1" and not isinstance(_compiler.grammar, _GrammarProbe):
+    _compiler.grammar = _GrammarProbe(_compiler.grammar)
+
 
 def _documented_classes():
     import parsimonious.exceptions as pe
